@@ -410,3 +410,68 @@ package bchutil
 //@   assert after newLegacyAddressScriptHashFromHash#1: $arg1 == netID && sameobj($arg0, $ret0_CheckDecode#1) && $ret_IsScriptHashAddrID#1 && !$ret_IsPubKeyHashAddrID#1
 //@   assert after DecodeString#1: sameobj($arg0, addr) && len($arg0) == len(addr) && (len(addr) == 130 || len(addr) == 66)
 //@   assert after NewAddressPubKey#1: $arg1 == defaultNet && sameobj($arg0, $ret0_DecodeString#1)
+
+//@ func bchutil.encodeLegacyAddress
+//@   requires len(hash160) >= 20
+//@   ensures $calls_CheckEncode == 1 && sameobj(result, $ret_CheckEncode#1) && len(result) == len($ret_CheckEncode#1) && result.off == $ret_CheckEncode#1.off
+//@   modifies nothing
+//@   assert after CheckEncode#1: sameobj($arg0, hash160) && $arg0.off == hash160.off && len($arg0) == 20 && $arg1 == netID
+
+//@ func bchutil.encodeCashAddress
+//@   requires len(hash160) >= 20
+//@   ensures $calls_checkEncodeCashAddress == 1 && sameobj(result, $ret_checkEncodeCashAddress#1) && len(result) == len($ret_checkEncodeCashAddress#1) && result.off == $ret_checkEncodeCashAddress#1.off
+//@   modifies nothing
+//@   assert after checkEncodeCashAddress#1: sameobj($arg0, hash160) && $arg0.off == hash160.off && len($arg0) == 20 && sameobj($arg1, prefix) && len($arg1) == len(prefix) && $arg1.off == prefix.off && $arg2 == t
+
+//@ func bchutil.(*AddressPubKeyHash).EncodeAddress
+//@   ensures $calls_encodeCashAddress == 1 && sameobj(result, $ret_encodeCashAddress#1) && len(result) == len($ret_encodeCashAddress#1)
+//@   modifies nothing
+//@   assert after encodeCashAddress#1: len($arg0) == 20 && (forall k :: 0 <= k && k < 20 ==> $arg0[k] == a.hash[k]) && sameobj($arg1, a.prefix) && len($arg1) == len(a.prefix) && $arg1.off == a.prefix.off && $arg2 == AddrTypePayToPubKeyHash
+
+//@ func bchutil.(*AddressScriptHash).EncodeAddress
+//@   ensures $calls_encodeCashAddress == 1 && sameobj(result, $ret_encodeCashAddress#1) && len(result) == len($ret_encodeCashAddress#1)
+//@   modifies nothing
+//@   assert after encodeCashAddress#1: len($arg0) == 20 && (forall k :: 0 <= k && k < 20 ==> $arg0[k] == a.hash[k]) && sameobj($arg1, a.prefix) && len($arg1) == len(a.prefix) && $arg1.off == a.prefix.off && $arg2 == AddrTypePayToScriptHash
+
+//@ func bchutil.(*AddressScriptHash32).EncodeAddress
+//@   ensures $calls_encodeCashAddress == 1 && sameobj(result, $ret_encodeCashAddress#1) && len(result) == len($ret_encodeCashAddress#1)
+//@   modifies nothing
+//@   assert after encodeCashAddress#1: len($arg0) == 32 && (forall k :: 0 <= k && k < 32 ==> $arg0[k] == a.hash[k]) && sameobj($arg1, a.prefix) && len($arg1) == len(a.prefix) && $arg1.off == a.prefix.off
+//@   assert after encodeCashAddress#1: $arg2 == AddrTypePayToScriptHash32
+
+//@ func bchutil.(*LegacyAddressPubKeyHash).EncodeAddress
+//@   ensures $calls_encodeLegacyAddress == 1 && sameobj(result, $ret_encodeLegacyAddress#1) && len(result) == len($ret_encodeLegacyAddress#1)
+//@   modifies nothing
+//@   assert after encodeLegacyAddress#1: len($arg0) == 20 && (forall k :: 0 <= k && k < 20 ==> $arg0[k] == a.hash[k]) && $arg1 == a.netID
+
+//@ func bchutil.(*LegacyAddressScriptHash).EncodeAddress
+//@   ensures $calls_encodeLegacyAddress == 1 && sameobj(result, $ret_encodeLegacyAddress#1) && len(result) == len($ret_encodeLegacyAddress#1)
+//@   modifies nothing
+//@   assert after encodeLegacyAddress#1: len($arg0) == 20 && (forall k :: 0 <= k && k < 20 ==> $arg0[k] == a.hash[k]) && $arg1 == a.netID
+
+//@ func bchutil.(*AddressPubKey).serialize
+//@   requires a.pubKey != nil
+//@   ensures a.pubKeyFormat == PKFCompressed ==> $calls_SerializeCompressed == 1 && sameobj(result, $ret_SerializeCompressed#1) && len(result) == len($ret_SerializeCompressed#1)
+//@   ensures a.pubKeyFormat == PKFHybrid ==> $calls_SerializeHybrid == 1 && sameobj(result, $ret_SerializeHybrid#1) && len(result) == len($ret_SerializeHybrid#1)
+//@   ensures a.pubKeyFormat != PKFCompressed && a.pubKeyFormat != PKFHybrid ==> $calls_SerializeUncompressed == 1 && sameobj(result, $ret_SerializeUncompressed#1) && len(result) == len($ret_SerializeUncompressed#1)
+//@   ensures a.pubKeyFormat == PKFCompressed ==> len(result) == 33
+//@   ensures a.pubKeyFormat != PKFCompressed ==> len(result) == 65
+//@   modifies nothing
+//@   assert after SerializeCompressed#1: $arg0 == a.pubKey
+//@   assert after SerializeHybrid#1: $arg0 == a.pubKey
+//@   assert after SerializeUncompressed#1: $arg0 == a.pubKey
+
+//@ func bchutil.(*AddressPubKey).String
+//@   requires a.pubKey != nil
+//@   ensures $calls_serialize == 1 && $calls_EncodeToString == 1 && sameobj(result, $ret_EncodeToString#1) && len(result) == len($ret_EncodeToString#1) && result.off == $ret_EncodeToString#1.off
+//@   modifies nothing
+//@   assert after serialize#1: $arg0 == a
+//@   assert after EncodeToString#1: sameobj($arg0, $ret_serialize#1) && len($arg0) == len($ret_serialize#1) && $arg0.off == $ret_serialize#1.off
+
+//@ func bchutil.(*AddressPubKey).EncodeAddress
+//@   requires a.pubKey != nil
+//@   ensures $calls_serialize == 1 && $calls_Hash160 == 1 && $calls_encodeLegacyAddress == 1 && sameobj(result, $ret_encodeLegacyAddress#1) && len(result) == len($ret_encodeLegacyAddress#1)
+//@   modifies nothing
+//@   assert after serialize#1: $arg0 == a
+//@   assert after Hash160#1: sameobj($arg0, $ret_serialize#1) && len($arg0) == len($ret_serialize#1) && $arg0.off == $ret_serialize#1.off
+//@   assert after encodeLegacyAddress#1: sameobj($arg0, $ret_Hash160#1) && len($arg0) == len($ret_Hash160#1) && $arg0.off == $ret_Hash160#1.off && $arg1 == a.pubKeyHashID
